@@ -113,6 +113,13 @@ func ruleWTx(c *Ctx) {
 	if fn := get("*Tx", "Bytes"); fn != nil {
 		compareLayout(c, "W-tx", "Tx.Bytes", fn, evalWith(c, fn, nil, nil), specTx("p0", false), nil)
 	}
+	// the transaction id: reversed double SHA-256 of the standard serialisation
+	if fn := get("*Tx", "TxIDBytes"); fn != nil {
+		compareLayout(c, "W-tx", "Tx.TxIDBytes", fn, evalWith(c, fn, nil, nil), &Lay{K: "revl", Items: []*Lay{hashOf("sha256d", specTx("p0", false))}}, nil)
+	}
+	if fn := get("*Tx", "TxID"); fn != nil {
+		compareLayout(c, "W-tx", "Tx.TxID", fn, evalWith(c, fn, nil, nil), hashOf("hex", &Lay{K: "revl", Items: []*Lay{hashOf("sha256d", specTx("p0", false))}}), nil)
+	}
 	if fn := get("*Tx", "ExtendedBytes"); fn != nil {
 		compareLayout(c, "W-tx", "Tx.ExtendedBytes", fn, evalWith(c, fn, nil, nil), specTx("p0", true), nil)
 	}
